@@ -15,7 +15,7 @@ Proof. unfold hll_index_count; cbn [fst]. lia. Qed.
 Definition hwf (s : hll) : Prop := length (h_regs s) = N.to_nat (h_m s) /\ Forall (fun r => r < 256) (h_regs s).
 
 Lemma wrap8_lt x : wrap8 x < 256.
-Proof. unfold wrap8; apply N.mod_lt; lia. Qed.
+Proof. rewrite wrap8_spec; apply N.mod_lt; lia. Qed.
 
 Lemma new_wf m s : hll_new m = Ok s -> hwf s /\ h_m s = m /\ h_p s = N.log2 m.
 Proof.
@@ -83,7 +83,7 @@ Proof.
   assert (Ho : old < 256).
   { rewrite Forall_forall in Hf. apply Hf. eapply nth_error_In; eauto. }
   pose proof (wrap8_lt c) as Hc.
-  assert (Hw : forall v, v < 256 -> wrap8 v = v) by (intros v Hv; unfold wrap8; apply N.mod_small; lia).
+  assert (Hw : forall v, v < 256 -> wrap8 v = v) by (intros v Hv; rewrite wrap8_spec; apply N.mod_small; lia).
   rewrite (Hw (N.max old (wrap8 c))) by lia.
   rewrite (Hw (N.max (N.max old (wrap8 c)) (wrap8 c))) by lia. lia.
 Qed.
@@ -120,7 +120,7 @@ Lemma rupd_small regs iv : Forall (fun r => r < 256) regs -> Forall (fun r => r 
 Proof. intros H. apply Forall_upd; auto. intros; apply wrap8_lt. Qed.
 
 Lemma wrap8_small v : v < 256 -> wrap8 v = v.
-Proof. intros; unfold wrap8; apply N.mod_small; lia. Qed.
+Proof. intros; rewrite wrap8_spec; apply N.mod_small; lia. Qed.
 
 Lemma nth_small regs j : Forall (fun r => r < 256) regs -> nth j regs 0 < 256.
 Proof.
@@ -240,7 +240,7 @@ Proof.
   { unfold maxregs. apply map_ext_in. intros [x y] Hin. cbn [fst snd].
     pose proof (in_combine_l _ _ _ _ Hin) as Hx. pose proof (in_combine_r _ _ _ _ Hin) as Hy.
     rewrite Forall_forall in Hfa, Hfb. specialize (Hfa x Hx). specialize (Hfb y Hy).
-    unfold wrap8. apply N.mod_small. lia. }
+    rewrite wrap8_spec. apply N.mod_small. lia. }
   rewrite E. repeat split; auto.
   - cbn [h_regs h_m]. unfold maxregs. rewrite map_length, combine_length. lia.
   - cbn [h_regs]. unfold maxregs. apply Forall_forall. intros v Hv. apply in_map_iff in Hv as ([x y] & <- & Hin).
